@@ -330,6 +330,16 @@ def roundtrip_case(draw, big=False):
 
 
 @st.composite
+def resave_case(draw):
+    case = draw(roundtrip_case())
+    case["presave"] = {"kind": draw(st.sampled_from(["ragged", "ragged", "ndarray"])),
+                       "extra_rows": draw(st.sampled_from([0, 1, 3, 12])),
+                       "dtype": draw(st.sampled_from(["int64", "float32", "int8"])),
+                       "tag": draw(st.sampled_from(["arr", "arr", "old"]))}
+    return case
+
+
+@st.composite
 def single_case(draw, big=False):
     """Everything that reaches ra.load's "only one key" shortcut together with a stride."""
     entry = pick(draw, ["ragged1", "ndarray", "one_key", "striped1", "ragged1"])
@@ -365,6 +375,15 @@ def striped_case(draw, big=False):
 def saved(case, d):
     """Build the array of the case, store it with ra.save, return (path, rows, is_ndarray)."""
     path = os.path.join(d, "a.h5")
+    pre = case.get("presave")
+    if pre:
+        # the target path already holds an earlier save (a re-run of an analysis writes over its old output)
+        n_old = (len(case["lengths"]) if case["kind"] != "ndarray" else 1) + pre["extra_rows"]
+        old_rows = [np.full((1 + (k % 3),), 7 + k % 100, dtype=pre["dtype"]) for k in range(n_old)]
+        if pre["kind"] == "ndarray":
+            ra.save(path, np.arange(12, dtype=pre["dtype"]).reshape(3, 4), tag=pre["tag"])
+        else:
+            ra.save(path, ra.RaggedArray(old_rows), tag=pre["tag"])
     if case["kind"] == "ndarray":
         x = make_ndarray(case)
         rows = [np.ascontiguousarray(x)]
@@ -893,6 +912,8 @@ def exhaustive_strides(tier, shard, nshards):
 CLAUSES = [
     Clause("roundtrip", roundtrip_case(), run_roundtrip, quick=320, thorough=3000,
            exhaustive=exhaustive_rowcounts),
+    Clause("resave_same_path", resave_case(), run_roundtrip, quick=200, thorough=2000,
+           doc="save over a file that already holds an earlier (larger / differently tagged) save, then load"),
     Clause("stride", ragged_case(min_rows=2, with_stride=True), run_stride, quick=240, thorough=3000,
            exhaustive=exhaustive_strides),
     Clause("stride_single", single_case(), run_stride_single, quick=200, thorough=2000),
